@@ -345,3 +345,62 @@ func PairEdges(t *tree.Tree, m *ref.Node) ([]EdgePair, error) {
 	}
 	return out, nil
 }
+
+// RerootBoth re-roots the gotree tree in memory (Tree.Reroot) at one of its inner non-root nodes
+// with >= 3 neighbours, chosen by sel, and returns the reference model re-rooted at the same
+// node. Trees read from text always list a node's parent first among its neighbours; a tree
+// re-rooted in memory does not, which is a state every operation must also cope with. Only for
+// models whose root has >= 3 children and that have no single-child node (otherwise the old
+// root stays behind as a single-child node). ok=false when no such node exists.
+func RerootBoth(t *tree.Tree, m *ref.Node, sel int) (rm *ref.Node, ok bool, err error) {
+	if len(m.Ch) < 3 || m.HasSingleChildInner() {
+		return m, false, nil
+	}
+	pairs, err := PairEdges(t, m)
+	if err != nil {
+		return nil, false, err
+	}
+	var cand []EdgePair
+	for _, p := range pairs {
+		if len(p.M.Ch) >= 2 {
+			cand = append(cand, p)
+		}
+	}
+	if len(cand) == 0 {
+		return m, false, nil
+	}
+	c := cand[sel%len(cand)]
+	if err := t.Reroot(c.E.Right()); err != nil {
+		return nil, false, fmt.Errorf("Reroot failed: %v", err)
+	}
+	rm = ref.RerootAt(m, c.M)
+	// sanity: the text of the re-rooted tree is the re-rooted model (C05 judges Reroot itself)
+	got, err := Read(t)
+	if err != nil {
+		return nil, false, err
+	}
+	if d := ref.Diff(Printable(rm), got); d != "" {
+		return nil, false, fmt.Errorf("after Reroot the text is not the re-rooted model: %s (%s)", d, t.Newick())
+	}
+	return got, true, nil
+}
+
+// RerootInMemory re-roots the tree (Tree.Reroot) at one of its non-root nodes with >= 3
+// neighbours chosen by sel; nothing happens when there is none. For oracles that do not depend on
+// the rooting: the in-memory state (a node's parent no longer first among its neighbours) is one
+// that no freshly parsed tree has.
+func RerootInMemory(t *tree.Tree, sel int) error {
+	if sel <= 0 {
+		return nil
+	}
+	var cand []*tree.Node
+	for _, n := range t.Nodes() {
+		if n != t.Root() && n.Nneigh() >= 3 {
+			cand = append(cand, n)
+		}
+	}
+	if len(cand) == 0 || t.Root().Nneigh() < 3 {
+		return nil
+	}
+	return t.Reroot(cand[(sel-1)%len(cand)])
+}
